@@ -31,6 +31,8 @@
 // within a grace period of 2 s (env VERIF_REPLAY_FB_GRACE_MS; the leader sends to all the receivers
 // back to back, so the others are not going to get one: `-`), or (d) the global deadline expires
 // (`-` for everything still missing, and the driver gives up: later rounds print `-` as well).
+// The grace periods actually spent in (c) extend the global deadline, so a leader that skips a
+// receiver in every round still runs to the end of the script instead of ending in TIMEOUT.
 //
 // Output: `OUT I(s) F .. E ; FB C(s) C(s) | F(s) F(s) | ...` exactly as in the SPEC, always with one
 // group per scripted round. Additions for situations the SPEC does not cover (never printed for a
@@ -43,7 +45,7 @@
 #![allow(dead_code, unused_imports, unused_variables, clippy::all)]
 
 use std::any::TypeId;
-use std::sync::atomic::{AtomicBool, AtomicUsize, Ordering};
+use std::sync::atomic::{AtomicBool, AtomicU64, AtomicUsize, Ordering};
 use std::sync::mpsc;
 use std::sync::{Arc, Mutex};
 use std::time::{Duration, Instant};
@@ -248,7 +250,13 @@ fn run(args: &[i128]) -> Result<String, String> {
 
     let watchdog_ms = env_ms("VERIF_REPLAY_WATCHDOG_MS", 10_000);
     let grace = Duration::from_millis(env_ms("VERIF_REPLAY_FB_GRACE_MS", 2_000));
-    let deadline = Instant::now() + Duration::from_millis(watchdog_ms);
+    // the grace periods the driver had to sit through do not count against the watchdog
+    let grace_spent = Arc::new(AtomicU64::new(0));
+    let base_deadline = Instant::now() + Duration::from_millis(watchdog_ms);
+    let deadline = {
+        let grace_spent = grace_spent.clone();
+        move || base_deadline + Duration::from_millis(grace_spent.load(Ordering::SeqCst))
+    };
 
     // --- worker: the real leader, polled on its own thread so that the watchdog can give up
     let prev_hook = std::panic::take_hook();
@@ -297,6 +305,8 @@ fn run(args: &[i128]) -> Result<String, String> {
         let fb = fb.clone();
         let extra = extra.clone();
         let leader_done = leader_done.clone();
+        let deadline = deadline.clone();
+        let grace_spent = grace_spent.clone();
         std::thread::Builder::new()
             .name("verif-ends".into())
             .spawn(move || {
@@ -335,12 +345,13 @@ fn run(args: &[i128]) -> Result<String, String> {
                             break;
                         }
                         let now = Instant::now();
-                        if now >= deadline {
+                        if now >= deadline() {
                             gave_up = true;
                             break;
                         }
                         if let Some(t) = first_at {
                             if now.duration_since(t) >= grace {
+                                grace_spent.fetch_add(grace.as_millis() as u64, Ordering::SeqCst);
                                 break;
                             }
                         }
@@ -357,7 +368,7 @@ fn run(args: &[i128]) -> Result<String, String> {
                         ));
                     }
                     // leftovers: only meaningful once the leader cannot send any more
-                    while !finished() && Instant::now() < deadline {
+                    while !finished() && Instant::now() < deadline() {
                         std::thread::sleep(Duration::from_micros(500));
                     }
                     if finished() {
@@ -387,8 +398,9 @@ fn run(args: &[i128]) -> Result<String, String> {
     let mut out: Vec<String> = Vec::new();
     loop {
         let now = Instant::now();
-        let left = if deadline > now {
-            deadline - now
+        let dl = deadline();
+        let left = if dl > now {
+            dl - now
         } else {
             Duration::from_millis(0)
         };
@@ -396,6 +408,10 @@ fn run(args: &[i128]) -> Result<String, String> {
             Ok(t) if t == "\u{0}DONE" => break,
             Ok(t) => out.push(t),
             Err(mpsc::RecvTimeoutError::Timeout) => {
+                if Instant::now() < deadline() {
+                    // the deadline moved (grace periods) while we were waiting
+                    continue;
+                }
                 if PANICKING.load(Ordering::SeqCst) {
                     // the worker is unwinding: that is a PANIC, not a TIMEOUT
                     match worker.join() {
@@ -426,8 +442,9 @@ fn run(args: &[i128]) -> Result<String, String> {
     }
     // the worker is done, so the driver only has bounded waits left (grace periods at most)
     let now = Instant::now();
-    let left = if deadline > now {
-        deadline - now
+    let dl = deadline();
+    let left = if dl > now {
+        dl - now
     } else {
         Duration::from_millis(0)
     };
